@@ -134,6 +134,15 @@ class _Rename(ast.NodeTransformer):
         return node
 
 
+def _target_node(target):
+    """Store target for the result of an inlined call: a local name or an attribute (`self._thread = self._make(...)`)."""
+    if isinstance(target, str):
+        return ast.Name(id=target, ctx=ast.Store())
+    t = copy.deepcopy(target)
+    t.ctx = ast.Store()
+    return t
+
+
 class _Returns(ast.NodeTransformer):
     def __init__(self, form, target):
         self.form, self.target = form, target
@@ -144,7 +153,7 @@ class _Returns(ast.NodeTransformer):
         out = []
         if self.form == "assign":
             value = node.value if node.value is not None else ast.Constant(value=None)
-            out.append(ast.copy_location(ast.Assign(targets=[ast.Name(id=self.target, ctx=ast.Store())], value=value), node))
+            out.append(ast.copy_location(ast.Assign(targets=[_target_node(self.target)], value=value), node))
         elif node.value is not None and not isinstance(node.value, ast.Constant):
             out.append(ast.copy_location(ast.Expr(value=node.value), node))
         out.append(ast.copy_location(LeaveBlock(), node))
@@ -233,7 +242,7 @@ def _build_block(helper, call, form, target, caller_locals):
         new_body.append(ast.copy_location(ast.Return(value=ast.Constant(value=None)), call))
     elif form == "assign":
         # falling off the end of the helper yields None: the default comes first, every return overwrites it
-        new_body.insert(0, ast.copy_location(ast.Assign(targets=[ast.Name(id=target, ctx=ast.Store())], value=ast.Constant(value=None)), call))
+        new_body.insert(0, ast.copy_location(ast.Assign(targets=[_target_node(target)], value=ast.Constant(value=None)), call))
     block = InlineBlock(body=prologue + new_body)
     ast.copy_location(block, call)
     ast.fix_missing_locations(block)
@@ -247,8 +256,8 @@ def _match(stmt):
         return "stmt", stmt.value, None
     if isinstance(stmt, ast.Return) and isinstance(stmt.value, ast.Call):
         return "return", stmt.value, None
-    if isinstance(stmt, ast.Assign) and len(stmt.targets) == 1 and isinstance(stmt.targets[0], ast.Name) and isinstance(stmt.value, ast.Call):
-        return "assign", stmt.value, stmt.targets[0].id
+    if isinstance(stmt, ast.Assign) and len(stmt.targets) == 1 and isinstance(stmt.value, ast.Call) and (isinstance(stmt.targets[0], ast.Name) or (isinstance(stmt.targets[0], ast.Attribute) and pure_ref(stmt.targets[0]))):
+        return "assign", stmt.value, (stmt.targets[0].id if isinstance(stmt.targets[0], ast.Name) else stmt.targets[0])
     return None
 
 
